@@ -1,10 +1,20 @@
-"""Synthetic QUIC v1 connections (RFC 9000/9001): a reference pair of sending endpoints."""
+"""Synthetic QUIC v1 connections (RFC 9000/9001/9221): a reference pair of *sending* endpoints with ground truth.
+
+build_qconn(spec, rng) -> QConn
+  .dgrams   [Dgram] in send order: dir, bytes, packets=[PktInfo(space, pn, pn_len, frames=[truth dicts], key_phase)], stream (STREAM data carried)
+  .expect   [(dir, bytes)] one entry per datagram that carried STREAM data (non-empty), in order
+  .expect_meta [(dir, bytes)] per datagram: CRYPTO and STREAM data in frame order (what -a exports)
+  .keylog   NSS key log lines ; .ref_keys reference key material per level/generation (for C15)
+Sender validity rules (self-checked, see DESIGN 2.1): at most one short-header packet per datagram and it is last; padding needed for the
+header-protection sample goes before a LEN-less frame; every packet number decodes by RFC 9000 A.3 with the receiver's largest-so-far;
+a key update is only initiated after the peer has sent in the current phase.
+"""
 import hashlib
 import warnings
 from dataclasses import dataclass, field
 
-from . import refkdf
-from .tlssynth import hs, ext, rb
+from . import qframes as qf, refkdf
+from .tlssynth import hs, ext
 
 with warnings.catch_warnings():
     warnings.simplefilter("ignore")
@@ -15,76 +25,9 @@ with warnings.catch_warnings():
 
 SUITES = {0x1301: ("sha256", 16, "GCM"), 0x1302: ("sha384", 32, "GCM"),
           0x1303: ("sha256", 32, "CHACHA"), 0x1304: ("sha256", 16, "CCM")}
+varint = qf.varint
 
 
-def varint(v, force_len=None):
-    for ln, pre in ((1, 0), (2, 1), (4, 2), (8, 3)):
-        if v < 1 << (8 * ln - 2) and (force_len is None or ln >= force_len):
-            return ((pre << (8 * ln - 2)) | v).to_bytes(ln, "big")
-    raise ValueError(v)
-
-
-# ------------------------------------------------------------------ frames
-def f_padding(n):
-    return bytes(n)
-
-
-def f_ping():
-    return b"\x01"
-
-
-def f_ack(largest, delay=0, first=0, ranges=(), ecn=None, vl=None):
-    b = bytes([3 if ecn else 2]) + varint(largest, vl) + varint(delay, vl) + varint(len(ranges), vl) + varint(first, vl)
-    for g, r in ranges:
-        b += varint(g, vl) + varint(r, vl)
-    if ecn:
-        b += b"".join(varint(x, vl) for x in ecn)
-    return b
-
-
-def f_crypto(off, data, vl=None):
-    return b"\x06" + varint(off, vl) + varint(len(data), vl) + data
-
-
-def f_stream(sid, data, off=None, fin=False, explicit_len=True, vl=None):
-    t = 0x08 | (4 if off is not None else 0) | (2 if explicit_len else 0) | (1 if fin else 0)
-    b = bytes([t]) + varint(sid, vl)
-    if off is not None:
-        b += varint(off, vl)
-    if explicit_len:
-        b += varint(len(data), vl)
-    return b + data
-
-
-def f_new_cid(seq, retire, cid, token):
-    return b"\x18" + varint(seq) + varint(retire) + bytes([len(cid)]) + cid + token
-
-
-def f_max_data(v):
-    return b"\x10" + varint(v)
-
-
-def f_max_stream_data(s, v):
-    return b"\x11" + varint(s) + varint(v)
-
-
-def f_max_streams(v, uni=False):
-    return bytes([0x13 if uni else 0x12]) + varint(v)
-
-
-def f_datagram(data, explicit_len=True):
-    return (b"\x31" + varint(len(data)) + data) if explicit_len else (b"\x30" + data)
-
-
-def f_handshake_done():
-    return b"\x1e"
-
-
-def f_new_token(tok):
-    return b"\x07" + varint(len(tok)) + tok
-
-
-# ------------------------------------------------------------------ packet protection
 class Keys:
     def __init__(self, hashname, secret, key_len, mode):
         k = refkdf.quic_keys(hashname, secret, key_len)
@@ -92,29 +35,34 @@ class Keys:
 
     def next_gen(self):
         n = Keys(self.hashname, refkdf.quic_next_secret(self.hashname, self.secret), self.key_len, self.mode)
-        n.hp = self.hp  # header protection key is not updated
+        n.hp = self.hp  # header protection key is not updated (RFC 9001 6)
         return n
 
     def aead(self):
-        return {"GCM": AESGCM, "CHACHA": ChaCha20Poly1305}.get(self.mode, None)(self.key) if self.mode != "CCM" else AESCCM(self.key, 16)
+        if self.mode == "GCM":
+            return AESGCM(self.key)
+        if self.mode == "CCM":
+            return AESCCM(self.key, 16)
+        return ChaCha20Poly1305(self.key)
 
     def mask(self, sample):
         if self.mode == "CHACHA":
             return Cipher(ChaCha20(self.hp, sample), mode=None).encryptor().update(bytes(5))
         return Cipher(AES(self.hp), ECB()).encryptor().update(sample)[:5]
 
+    def material(self):
+        return {"key": self.key, "iv": self.iv, "hp": self.hp, "secret": self.secret}
+
 
 def protect(keys: Keys, header_wo_pn: bytes, pn: int, pn_len: int, payload: bytes, long_hdr: bool):
-    """header_wo_pn: everything before the packet number (for long headers the Length field must already
-    account for pn_len + len(payload) + 16)."""
-    while pn_len + len(payload) < 4:          # room for the header-protection sample
-        payload += b"\x00"
+    assert pn_len + len(payload) >= 4
     pnb = (pn & ((1 << (8 * pn_len)) - 1)).to_bytes(pn_len, "big")
     hdr = bytearray(header_wo_pn + pnb)
     nonce = bytes(a ^ b for a, b in zip(keys.iv, pn.to_bytes(12, "big")))
     ct = keys.aead().encrypt(nonce, payload, bytes(hdr))
     pn_off = len(header_wo_pn)
     sample = (pnb + ct)[4:20]
+    assert len(sample) == 16
     m = keys.mask(sample)
     hdr[0] ^= m[0] & (0x0F if long_hdr else 0x1F)
     for i in range(pn_len):
@@ -123,8 +71,6 @@ def protect(keys: Keys, header_wo_pn: bytes, pn: int, pn_len: int, payload: byte
 
 
 def long_packet(keys, ptype, dcid, scid, pn, pn_len, payload, token=None, len_vl=2):
-    while pn_len + len(payload) < 4:
-        payload += b"\x00"
     first = 0xC0 | (ptype << 4) | (pn_len - 1)
     h = bytes([first]) + b"\x00\x00\x00\x01" + bytes([len(dcid)]) + dcid + bytes([len(scid)]) + scid
     if ptype == 0:
@@ -145,186 +91,427 @@ def retry_packet(odcid, dcid, scid, token):
     return body + tag
 
 
-# ------------------------------------------------------------------ connection
+def rfc_decode(largest, truncated, nbits):
+    expected = largest + 1
+    win = 1 << nbits
+    hwin = win // 2
+    mask = win - 1
+    cand = (expected & ~mask) | truncated
+    if cand <= expected - hwin and cand < (1 << 62) - win:
+        return cand + win
+    if cand > expected + hwin and cand >= win:
+        return cand - win
+    return cand
+
+
 @dataclass
 class QSpec:
     suite: int = 0x1301
-    offered: tuple = (0x1301, 0x1302, 0x1303)
-    c_scid_len: int = 8          # client's source CID (server uses it as DCID)
+    offered: tuple = (0x1301, 0x1302, 0x1303)   # ClientHello cipher_suites in order (selected one must be in it)
+    c_scid_len: int = 8
     s_scid_len: int = 8
     odcid_len: int = 8
     retry: bool = False
-    zero_rtt: list = field(default_factory=list)     # [bytes] stream payloads in 0-RTT
+    zero_rtt: list = field(default_factory=list)     # [[frame-spec,...]] one 0-RTT packet each (own datagram unless zero_rtt_coalesce)
+    zero_rtt_coalesce: bool = False                  # first 0-RTT packet shares the datagram of the (last) client Initial
     ch_split: tuple = ()          # cut points of ClientHello into CRYPTO frames
     ch_order: tuple = ()          # order in which the CRYPTO frames are sent
     ch_packets: int = 1           # spread over that many Initial packets
-    app: list = field(default_factory=list)          # [(dir, [ [frame-spec,...] per packet ])]
-    key_updates: tuple = ()       # indexes into app at which the sender initiates a key update
+    app: list = field(default_factory=list)          # [(dir, [[frame-spec,...] per packet])]; at most one packet per entry (short header)
+    key_updates: tuple = ()       # indexes into app at which that entry's sender initiates a key update (made valid by the builder)
     pn_len_mode: str = "min"      # min | rand | 4
-    pn_start: int = 0
+    pn_start: dict = field(default_factory=dict)     # {(dir, space): first packet number}
     pn_gap: int = 0
-    new_cid_at: int = -1          # server issues NEW_CONNECTION_ID; client switches to it afterwards
-    v6: bool = False
+    new_cid_at: int = -1          # before app entry i the server issues NEW_CONNECTION_ID and the client switches to it
+    new_cid_len: int = -1         # -1: same length as the server's CID
+    client_new_cid_at: int = -1   # same, issued by the client, server switches
     token: bytes = b""
-    pn_split: bool = False   # keep the two directions' packet numbers disjoint (avoids D14)
+    varint_policy: object = "min"
+    coalesce_1rtt_with_hs: bool = False   # client's first 1-RTT packet shares the datagram of its Handshake Finished
+    server_half_rtt: bool = False         # server sends 1-RTT stream data coalesced after its Handshake flight (0.5-RTT)
+    hs_split: int = 2             # server handshake flight over that many Handshake packets
+    len_vl: int = 2               # width of the long-header Length varint
+    early_secret_line: bool = True
+    nst: int = 0                  # NewSessionTicket messages in 1-RTT CRYPTO frames
+
+
+@dataclass
+class PktInfo:
+    space: str
+    pn: int
+    pn_len: int
+    frames: list
+    key_phase: int = 0
+    long: bool = True
+
+
+@dataclass
+class Dgram:
+    dir: str
+    data: bytes
+    packets: list
+    stream: bytes = b""
+    meta: bytes = b""
 
 
 @dataclass
 class QConn:
     spec: QSpec
-    dgrams: list      # [(dir, bytes)]
-    expect: list      # [(dir, stream_bytes)] one per datagram carrying stream data (non-empty)
+    dgrams: list
+    expect: list
+    expect_meta: list
     keylog: list
     client_random: bytes
     info: dict
+    ref_keys: dict
 
 
 class _Space:
     def __init__(self, start=0):
         self.next = start
-        self.prev = None
+        self.largest = None      # receiver's largest so far
 
 
-def _pn(space: _Space, rng, mode, gap=0):
-    pn = space.next + (rng.randrange(0, gap + 1) if gap else 0)
-    delta = pn + 1 if space.prev is None else pn - space.prev
-    need = 1
-    while (1 << (8 * need - 1)) <= delta:
-        need += 1
-    if mode == "4":
-        ln = 4
-    elif mode == "rand":
-        ln = rng.randrange(need, 5)
-    else:
-        ln = need
-    space.prev = pn
-    space.next = pn + 1
-    return pn, ln
+def build_payload(frames_spec, w, min_len):
+    """frames_spec: list of ('stream', sid, data, kw) | ('raw', bytes, truth) -> (payload, truths, stream_data, meta_data)"""
+    parts, truths, sdata, meta = [], [], b"", b""
+    for fr in frames_spec:
+        if fr[0] == "stream":
+            _, sid, data, kw = fr
+            b, t = qf.stream(w, sid, data, **kw)
+            sdata += data
+            meta += data
+        elif fr[0] == "crypto":
+            _, off, data = fr
+            b, t = qf.crypto(w, off, data)
+            meta += data
+        else:
+            _, b, t = fr
+        parts.append(b)
+        truths.append(t)
+    pay = b"".join(parts)
+    if len(pay) < min_len:    # padding for the header-protection sample goes *before* (a LEN-less frame extends to the end)
+        pad = min_len - len(pay)
+        pay = bytes(pad) + pay
+        truths.insert(0, {"kind": "PADDING", "n": pad})
+    return pay, truths, sdata, meta
 
 
 def build_qconn(spec: QSpec, rng) -> QConn:
     hname, klen, mode = SUITES[spec.suite]
     hl = hashlib.new(hname).digest_size
-    cr = rb(rng, 32)
-    odcid = rb(rng, spec.odcid_len)
-    c_scid = rb(rng, spec.c_scid_len)
-    s_scid = rb(rng, spec.s_scid_len)
-    sec = {k: rb(rng, hl) for k in ("chs", "shs", "cap", "sap", "early")}
+    rb = rng.randbytes
+    w = qf.W(rng, spec.varint_policy)
+    assert spec.suite in spec.offered
+    cr = rb(32)
+    odcid = rb(spec.odcid_len)
+    c_scid = rb(spec.c_scid_len)
+    s_scid = rb(spec.s_scid_len)
+    sec = {k: rb(hl) for k in ("chs", "shs", "cap", "sap")}
     keylog = [f"CLIENT_HANDSHAKE_TRAFFIC_SECRET {cr.hex()} {sec['chs'].hex()}",
               f"SERVER_HANDSHAKE_TRAFFIC_SECRET {cr.hex()} {sec['shs'].hex()}",
               f"CLIENT_TRAFFIC_SECRET_0 {cr.hex()} {sec['cap'].hex()}",
               f"SERVER_TRAFFIC_SECRET_0 {cr.hex()} {sec['sap'].hex()}"]
+    K = {k: Keys(hname, s, klen, mode) for k, s in sec.items()}
+    ref_keys = {"handshake": {"c": K["chs"].material(), "s": K["shs"].material()}, "app": [{"c": K["cap"].material(), "s": K["sap"].material()}]}
     if spec.zero_rtt:
-        keylog.insert(0, f"CLIENT_EARLY_TRAFFIC_SECRET {cr.hex()} {sec['early'].hex()}")
-    K = {k: Keys(hname, s, klen, mode) for k, s in sec.items() if k != "early"}
-    # 0-RTT keys use the suite of the resumed session: take the first offered suite (what an
-    # implementation that remembers its PSK suite would put first)
-    eh, ek, em = SUITES.get(spec.offered[0], SUITES[0x1301])
-    if spec.zero_rtt:
-        K["early"] = Keys(eh, rb(rng, hashlib.new(eh).digest_size) if False else sec["early"][:hashlib.new(eh).digest_size].ljust(hashlib.new(eh).digest_size, b"\0"), ek, em)
+        # 0-RTT keys use the suite of the resumed session; a client offers that suite first, and a server that accepts 0-RTT selects it
+        assert spec.offered[0] == spec.suite
+        early = rb(hl)
+        if spec.early_secret_line:
+            keylog.insert(0, f"CLIENT_EARLY_TRAFFIC_SECRET {cr.hex()} {early.hex()}")
+        K["early"] = Keys(hname, early, klen, mode)
+        ref_keys["early"] = K["early"].material()
 
     tp = b"".join(varint(i) + varint(len(v)) + v for i, v in ((1, varint(30000)), (4, varint(1 << 20)), (0x0f, c_scid)))
     ce = (ext(0, b"\x00\x0e\x00\x00\x0bexample.org") + ext(16, b"\x00\x03\x02h3") + ext(43, b"\x02\x03\x04") +
-          ext(51, b"\x00\x24\x00\x1d\x00\x20" + rb(rng, 32)) + ext(57, tp))
+          ext(51, b"\x00\x24\x00\x1d\x00\x20" + rb(32)) + ext(57, tp))
     offered = b"".join(s.to_bytes(2, "big") for s in spec.offered)
     ch = hs(1, b"\x03\x03" + cr + b"\x00" + len(offered).to_bytes(2, "big") + offered + b"\x01\x00" + len(ce).to_bytes(2, "big") + ce)
-    se = ext(43, b"\x03\x04") + ext(51, b"\x00\x1d\x00\x20" + rb(rng, 32))
-    sh = hs(2, b"\x03\x03" + rb(rng, 32) + b"\x00" + spec.suite.to_bytes(2, "big") + b"\x00" + len(se).to_bytes(2, "big") + se)
+    se = ext(43, b"\x03\x04") + ext(51, b"\x00\x1d\x00\x20" + rb(32))
+    sh = hs(2, b"\x03\x03" + rb(32) + b"\x00" + spec.suite.to_bytes(2, "big") + b"\x00" + len(se).to_bytes(2, "big") + se)
     ee_ext = ext(16, b"\x00\x03\x02h3") + ext(57, varint(0) + varint(len(odcid)) + odcid)
-    s_hs = hs(8, len(ee_ext).to_bytes(2, "big") + ee_ext) + hs(11, b"\x00" + rb(rng, 700)) + hs(15, b"\x08\x04\x00\x40" + rb(rng, 64)) + hs(20, rb(rng, hl))
-    c_fin = hs(20, rb(rng, hl))
+    s_hs = hs(8, len(ee_ext).to_bytes(2, "big") + ee_ext) + hs(11, b"\x00" + rb(rng.choice([100, 700, 2000]))) + hs(15, b"\x08\x04\x00\x40" + rb(64)) + hs(20, rb(hl))
+    c_fin = hs(20, rb(hl))
 
-    dg, expect = [], []
-    sp = {(d, s): _Space((spec.pn_start + (1000003 if d == "s" and spec.pn_split else 0)) if s == "app" else (7 if d == "s" and spec.pn_split and s == "hs" else (3 if d=="s" and spec.pn_split else 0))) for d in "cs" for s in ("init", "hs", "app")}
+    dg = []
+    sp = {(d, s): _Space(spec.pn_start.get((d, s), 0)) for d in "cs" for s in ("init", "hs", "app")}
 
     def pn(d, s):
-        return _pn(sp[(d, s)], rng, spec.pn_len_mode, spec.pn_gap)
+        space = sp[(d, s)]
+        n = space.next + (rng.randrange(0, spec.pn_gap + 1) if spec.pn_gap else 0)
+        largest = 0 if space.largest is None else space.largest
+        need = 1
+        while need <= 4 and rfc_decode(largest, n & ((1 << 8 * need) - 1), 8 * need) != n:
+            need += 1
+        assert need <= 4, ("packet number not encodable", n, largest)
+        ok = [ln for ln in range(need, 5) if rfc_decode(largest, n & ((1 << 8 * ln) - 1), 8 * ln) == n]
+        if spec.pn_len_mode == "4":
+            ln = 4
+        elif spec.pn_len_mode == "rand":
+            ln = rng.choice(ok)
+        else:
+            ln = need
+        space.next = n + 1
+        space.largest = n if space.largest is None else max(space.largest, n)
+        return n, ln
+
+    def mk_long(keys, ptype, space, d, dcid, scid, frames_spec, token=None, pad_to=0):
+        n, ln = pn(d, space)
+        pay, truths, sdata, meta = build_payload(frames_spec, w, max(4 - ln, 0))
+        if pad_to and len(pay) < pad_to:
+            truths.append({"kind": "PADDING", "n": pad_to - len(pay)})
+            pay += bytes(pad_to - len(pay))
+        pkt = long_packet(keys, ptype, dcid, scid, n, ln, pay, token=token, len_vl=spec.len_vl)
+        return pkt, PktInfo(space, n, ln, truths), sdata, meta
+
+    def mk_short(keys, d, dcid, frames_spec, phase):
+        n, ln = pn(d, "app")
+        pay, truths, sdata, meta = build_payload(frames_spec, w, max(4 - ln, 0))
+        pkt = short_packet(keys, dcid, n, ln, pay, key_phase=phase, spin=rng.randrange(2))
+        return pkt, PktInfo("app", n, ln, truths, phase, False), sdata, meta
+
+    def emit(d, parts, tail=b""):
+        """parts: [(pkt bytes, PktInfo, sdata, meta)]"""
+        data = b"".join(p[0] for p in parts) + tail
+        dg.append(Dgram(d, data, [p[1] for p in parts], b"".join(p[2] for p in parts), b"".join(p[3] for p in parts)))
 
     init_dcid = odcid
+    tok = spec.token
+    info = {"odcid": odcid, "c_scid": c_scid, "s_scid": s_scid, "suite": spec.suite}
     if spec.retry:
         ci, si = refkdf.quic_initial_secrets(odcid)
-        KI = {"c": Keys("sha256", ci, 16, "GCM"), "s": Keys("sha256", si, 16, "GCM")}
-        p, l = pn("c", "init")
-        pay = f_crypto(0, ch)
-        pkt = long_packet(KI["c"], 0, odcid, c_scid, p, l, pay + bytes(max(0, 1162 - len(pay))))
-        dg.append(("c", pkt))
-        retry_scid = rb(rng, 8)
-        token = rb(rng, 24)
-        dg.append(("s", retry_packet(odcid, c_scid, retry_scid, token)))
+        KI0 = Keys("sha256", ci, 16, "GCM")
+        emit("c", [mk_long(KI0, 0, "init", "c", odcid, c_scid, [("crypto", 0, ch)], token=tok, pad_to=1162)])
+        retry_scid = rb(rng.choice([8, 8, 4, 16, 20]))
+        tok = rb(rng.randrange(8, 40))
+        dg.append(Dgram("s", retry_packet(odcid, c_scid, retry_scid, tok), [PktInfo("retry", -1, 0, [])]))
         init_dcid = retry_scid
-        tok = token
-    else:
-        tok = spec.token
+        info["retry_scid"] = retry_scid
+        ref_keys["initial_before_retry"] = {"c": KI0.material(), "s": Keys("sha256", si, 16, "GCM").material()}
     ci, si = refkdf.quic_initial_secrets(init_dcid)
     KI = {"c": Keys("sha256", ci, 16, "GCM"), "s": Keys("sha256", si, 16, "GCM")}
+    ref_keys["initial"] = {"c": KI["c"].material(), "s": KI["s"].material(), "dcid": init_dcid}
 
-    # ClientHello, possibly split and reordered over CRYPTO frames / packets
-    cuts = [0] + [c for c in spec.ch_split if 0 < c < len(ch)] + [len(ch)]
+    # ---- ClientHello, possibly split / reordered over CRYPTO frames and Initial packets
+    cuts = [0] + sorted({c for c in spec.ch_split if 0 < c < len(ch)}) + [len(ch)]
     pieces = [(cuts[i], ch[cuts[i]:cuts[i + 1]]) for i in range(len(cuts) - 1)]
-    if spec.ch_order:
+    if spec.ch_order and sorted(spec.ch_order) == list(range(len(pieces))):
         pieces = [pieces[i] for i in spec.ch_order]
     npk = max(1, min(spec.ch_packets, len(pieces)))
     per = [pieces[i::npk] for i in range(npk)]
-    for grp in per:
-        p, l = pn("c", "init")
-        pay = b"".join(f_crypto(o, d) for o, d in grp)
-        pkt = long_packet(KI["c"], 0, init_dcid, c_scid, p, l, pay + bytes(max(0, 1162 - len(pay))), token=tok)
-        dg.append(("c", pkt))
-    # 0-RTT
-    for i, data in enumerate(spec.zero_rtt):
-        p, l = pn("c", "app")
-        dg.append(("c", long_packet(K["early"], 1, init_dcid, c_scid, p, l, f_stream(0, data, off=None if i == 0 else sum(len(x) for x in spec.zero_rtt[:i])))))
-        expect.append(("c", data))
-    # server flight
-    p, l = pn("s", "init")
-    p1 = long_packet(KI["s"], 0, c_scid, s_scid, p, l, f_ack(0) + f_crypto(0, sh))
-    p2n, l2 = pn("s", "hs")
-    half = len(s_hs) // 2
-    p2 = long_packet(K["shs"], 2, c_scid, s_scid, p2n, l2, f_crypto(0, s_hs[:half]))
-    dg.append(("s", p1 + p2))
-    p3n, l3 = pn("s", "hs")
-    dg.append(("s", long_packet(K["shs"], 2, c_scid, s_scid, p3n, l3, f_crypto(half, s_hs[half:]))))
-    # client finish
-    a, la = pn("c", "init")
-    b, lb = pn("c", "hs")
-    pkA = long_packet(KI["c"], 0, s_scid, c_scid, a, la, f_ack(0))
-    pkB = long_packet(K["chs"], 2, s_scid, c_scid, b, lb, f_ack(1, first=1) + f_crypto(0, c_fin))
-    dg.append(("c", pkA + pkB + bytes(max(0, 1200 - len(pkA) - len(pkB))) if False else pkA + pkB))
-    # server: handshake done (+ new connection id)
-    p, l = pn("s", "app")
-    dg.append(("s", short_packet(K["sap"], c_scid, p, l, f_handshake_done() + f_new_token(rb(rng, 16)))))
+    zr = list(spec.zero_rtt)
+    for gi, grp in enumerate(per):
+        part = mk_long(KI["c"], 0, "init", "c", init_dcid, c_scid, [("crypto", o, d) for o, d in grp], token=tok, pad_to=1162 if not (zr and spec.zero_rtt_coalesce and gi == len(per) - 1) else 0)
+        parts = [part]
+        if zr and spec.zero_rtt_coalesce and gi == len(per) - 1:
+            parts.append(mk_long(K["early"], 1, "app", "c", init_dcid, c_scid, zr.pop(0)))
+            emit("c", parts, tail=bytes(max(0, 1200 - sum(len(p[0]) for p in parts))))
+        else:
+            emit("c", parts)
+    for frames in zr:
+        emit("c", [mk_long(K["early"], 1, "app", "c", init_dcid, c_scid, frames)])
 
-    cur = {"c": K["cap"], "s": K["sap"]}
+    # ---- server flight: Initial(ACK, ServerHello) + Handshake packets (+ 0.5-RTT data)
+    p1 = mk_long(KI["s"], 0, "init", "s", c_scid, s_scid, [("raw",) + qf.ack(w, sp[("c", "init")].largest or 0, 0, 0), ("crypto", 0, sh)])
+    nsplit = max(1, spec.hs_split)
+    edges = [len(s_hs) * i // nsplit for i in range(nsplit + 1)]
+    hs_parts = [mk_long(K["shs"], 2, "hs", "s", c_scid, s_scid, [("crypto", edges[i], s_hs[edges[i]:edges[i + 1]])]) for i in range(nsplit)]
+    emit("s", [p1, hs_parts[0]])
     phase = {"c": 0, "s": 0}
-    gen = {"c": 0, "s": 0}
-    s_cid_in_use = s_scid
-    info = {"odcid": odcid, "c_scid": c_scid, "s_scid": s_scid, "suite": spec.suite}
+    cur = {"c": K["cap"], "s": K["sap"]}
+    s_dcid_used_by_client = s_scid     # DCID the client puts into its packets
+    c_dcid_used_by_server = c_scid
+    for i, hp_ in enumerate(hs_parts[1:]):
+        last = i == len(hs_parts) - 2
+        if last and spec.server_half_rtt:
+            half = mk_short(cur["s"], "s", c_dcid_used_by_server, [("stream", 3, rb(rng.randrange(1, 200)), {})], 0)
+            emit("s", [hp_, half])
+        else:
+            emit("s", [hp_])
+    if len(hs_parts) == 1 and spec.server_half_rtt:
+        emit("s", [mk_short(cur["s"], "s", c_dcid_used_by_server, [("stream", 3, rb(rng.randrange(1, 200)), {})], 0)])
+
+    # ---- client: Initial ACK + Handshake (ACK, Finished) (+ first 1-RTT)
+    pa = mk_long(KI["c"], 0, "init", "c", s_scid, c_scid, [("raw",) + qf.ack(w, sp[("s", "init")].largest or 0, 0, 0)])
+    pb = mk_long(K["chs"], 2, "hs", "c", s_scid, c_scid, [("raw",) + qf.ack(w, sp[("s", "hs")].largest or 0, 0, 0), ("crypto", 0, c_fin)])
+    parts = [pa, pb]
+    if spec.coalesce_1rtt_with_hs:
+        parts.append(mk_short(cur["c"], "c", s_dcid_used_by_client, [("stream", 0, rb(rng.randrange(1, 300)), {"fin": False})], 0))
+    emit("c", parts)
+    # ---- server: HANDSHAKE_DONE (+ NEW_TOKEN, tickets in CRYPTO)
+    fs = [("raw",) + qf.handshake_done(), ("raw",) + qf.new_token(w, rb(16))]
+    coff = 0
+    for _ in range(spec.nst):
+        t = hs(4, rb(rng.randrange(20, 120)))
+        fs.append(("crypto", coff, t))
+        coff += len(t)
+    emit("s", [mk_short(cur["s"], "s", c_dcid_used_by_server, fs, 0)])
+
+    # ---- application history
+    sent_in_phase = {"c": True, "s": True}     # both sides have sent a 1-RTT packet in generation 0 (client: maybe not yet)
+    sent_in_phase["c"] = spec.coalesce_1rtt_with_hs
+    updates_done = []
     for idx, (d, packets) in enumerate(spec.app):
-        if idx in spec.key_updates:
-            # d initiates: both directions move to the next generation; peer answers with the new phase
+        o = "s" if d == "c" else "c"
+        if idx == spec.new_cid_at:
+            new = rb(len(s_scid) if spec.new_cid_len < 0 else spec.new_cid_len) or rb(8)
+            emit("s", [mk_short(cur["s"], "s", c_dcid_used_by_server, [("raw",) + qf.new_connection_id(w, 1, 0, new, rb(16))], phase["s"])])
+            sent_in_phase["s"] = True
+            s_dcid_used_by_client = new
+            info["new_server_cid"] = new
+        if idx == spec.client_new_cid_at:
+            new = rb(len(c_scid) if c_scid else 8)
+            emit("c", [mk_short(cur["c"], "c", s_dcid_used_by_client, [("raw",) + qf.new_connection_id(w, 1, 0, new, rb(16))], phase["c"])])
+            sent_in_phase["c"] = True
+            c_dcid_used_by_server = new
+            info["new_client_cid"] = new
+        if idx in spec.key_updates and sent_in_phase["c"] and sent_in_phase["s"]:
+            # d initiates (RFC 9001 6.1); the peer's next packet answers in the new phase; a further update needs both to have sent
             for x in "cs":
                 cur[x] = cur[x].next_gen()
                 phase[x] ^= 1
-        out = b""
-        sdata = b""
-        for frames in packets:
-            pay = b""
-            for fr in frames:
-                if fr[0] == "stream":
-                    _, sid, data, kw = fr
-                    pay += f_stream(sid, data, **kw)
-                    sdata += data
-                else:
-                    pay += fr[1]
-            p, l = pn(d, "app")
-            dcid = c_scid if d == "s" else s_cid_in_use
-            out += short_packet(cur[d], dcid, p, l, pay, key_phase=phase[d])
-        if idx == spec.new_cid_at:
-            new = rb(rng, len(s_scid) or 8)
-            p, l = pn("s", "app")
-            dg.append(("s", short_packet(cur["s"], c_scid, p, l, f_new_cid(1, 0, new, rb(rng, 16)), key_phase=phase["s"])))
-            s_cid_in_use = new
-        dg.append((d, out))
-        if sdata:
-            expect.append((d, sdata))
-    return QConn(spec, dg, expect, keylog, cr, info)
+                sent_in_phase[x] = False
+            ref_keys["app"].append({"c": cur["c"].material(), "s": cur["s"].material()})
+            updates_done.append((idx, d))
+        assert len(packets) == 1, "one short-header packet per datagram"
+        dcid = c_dcid_used_by_server if d == "s" else s_dcid_used_by_client
+        emit(d, [mk_short(cur[d], d, dcid, packets[0], phase[d])])
+        sent_in_phase[d] = True
+    info["key_updates_done"] = updates_done
+    expect = [(g.dir, g.stream) for g in dg if g.stream]
+    expect_meta = [(g.dir, g.meta) for g in dg if g.meta]
+    return QConn(spec, dg, expect, expect_meta, keylog, cr, info, ref_keys)
+
+
+# ------------------------------------------------------------------ random specs
+def random_app(rng, n, w=None, stream_heavy=True):
+    """history of n datagrams; each one short-header packet with a random frame mix around 0..4 STREAM frames on 1..3 streams"""
+    w = w or qf.W(rng, "min")
+    out = []
+    offs = {}
+    d = "c"
+    nstc = 0
+    for i in range(n):
+        r = rng.random()
+        if r < 0.5:
+            d = "s" if d == "c" else "c"
+        elif r < 0.6:
+            d = rng.choice("cs")
+        frames = []
+        k = rng.choice([0, 1, 1, 1, 2, 3, 4]) if stream_heavy else rng.choice([0, 0, 1])
+        nonstream = ["PADDING", "PING", "ACK", "RESET_STREAM", "STOP_SENDING", "NEW_TOKEN", "MAX_DATA", "MAX_STREAM_DATA", "MAX_STREAMS", "DATA_BLOCKED",
+                     "STREAM_DATA_BLOCKED", "STREAMS_BLOCKED", "RETIRE_CONNECTION_ID", "PATH_CHALLENGE", "PATH_RESPONSE", "DATAGRAM", "HANDSHAKE_DONE"]
+        for _ in range(rng.choice([0, 0, 1, 2, 4])):
+            b, t = qf.random_frame(rng, w, allow=[x for x in nonstream if not (x in ("HANDSHAKE_DONE", "NEW_TOKEN") and d == "c")])
+            frames.append(("raw", b, t))
+        for j in range(k):
+            sid = rng.choice([0, 4, 8]) if d == "c" else rng.choice([0, 1, 3, 5])
+            if d == "c" and rng.random() < 0.2:
+                sid = 2
+            data = rng.randbytes(rng.choice([0, 1, 2, 10, 100, 600, rng.randrange(1, 1100)]))
+            off = offs.get((d, sid), 0)
+            last = j == k - 1
+            kw = {"off": off if (off or rng.random() < 0.3) else None, "fin": rng.random() < 0.1, "explicit_len": True if not last else rng.random() < 0.6}
+            offs[(d, sid)] = off + len(data)
+            frames.append(("stream", sid, data, kw))
+            if not last:
+                for _ in range(rng.choice([0, 0, 1])):
+                    b, t = qf.random_frame(rng, w, allow=["PADDING", "PING", "ACK", "MAX_DATA", "MAX_STREAM_DATA"])
+                    frames.append(("raw", b, t))
+        if k and frames[-1][0] == "stream" and frames[-1][3]["explicit_len"] and rng.random() < 0.5:
+            b, t = qf.random_frame(rng, w, allow=["PADDING", "PING", "ACK"])
+            frames.append(("raw", b, t))
+        if not frames:
+            frames.append(("raw",) + qf.ping())
+        # keep the packet inside one 1350-byte datagram
+        while sum(len(f[1]) if f[0] == "raw" else len(f[2]) + 12 for f in frames) > 1300 and len(frames) > 1:
+            f = frames.pop(rng.randrange(len(frames)))
+        if frames[-1][0] != "stream":
+            for f in frames:
+                if f[0] == "stream":
+                    f[3]["explicit_len"] = True
+        out.append((d, [frames]))
+    return out
+
+
+def random_qspec(rng, napp=None, avoid=()):
+    """avoid: trigger names of listed open findings that must not be generated (base class)"""
+    suite = rng.choice(list(SUITES))
+    s = QSpec(suite=suite)
+    others = [x for x in SUITES if x != suite] + [0x1305, 0x0a0a, 0xc02f]
+    order = rng.choice(["first", "first", "last", "middle", "only", "grease-first"])
+    rest = rng.sample(others, rng.randrange(1, 4))
+    if "chacha-offered-first" in avoid:
+        rest = [x for x in rest if x != 0x1303] or [0x1302 if suite != 0x1302 else 0x1301]
+    if order == "first":
+        s.offered = tuple([suite] + rest)
+    elif order == "last":
+        s.offered = tuple(rest + [suite])
+    elif order == "middle":
+        s.offered = tuple(rest[:1] + [suite] + rest[1:])
+    elif order == "only":
+        s.offered = (suite,)
+    else:
+        s.offered = tuple([0x0a0a] + [x for x in rest if x != 0x0a0a] + [suite])
+    lens = [0, 1, 4, 8, 8, 16, 20, rng.randrange(0, 21)]
+    s.c_scid_len = rng.choice(lens)
+    s.s_scid_len = rng.choice(lens)
+    if "cid-len-0" in avoid:
+        s.c_scid_len = s.c_scid_len or 8
+        s.s_scid_len = s.s_scid_len or 8
+    if "cid-short" in avoid:
+        s.c_scid_len = max(s.c_scid_len, 4)
+        s.s_scid_len = max(s.s_scid_len, 4)
+    s.odcid_len = rng.choice([8, 8, 12, 20, rng.randrange(8, 21)])
+    s.retry = rng.random() < 0.2
+    s.pn_len_mode = rng.choice(["min", "rand", "4"])
+    s.pn_gap = rng.choice([0, 0, 3, 300, 70000])
+    for d in "cs":
+        for sp_ in ("init", "hs", "app"):
+            if rng.random() < 0.3:
+                s.pn_start[(d, sp_)] = rng.choice([1, 2, 255, 256, 65535, 1 << 20, (1 << 31) - 5, rng.randrange(0, 1 << 31)])
+    s.varint_policy = rng.choice(["min", "min", "rand", 2, 4, 8])
+    w = qf.W(rng, s.varint_policy)
+    n = napp if napp is not None else rng.choice([0, 1, 2, 5, 12, 30])
+    s.app = random_app(rng, n, w)
+    if rng.random() < 0.35 and n:
+        s.key_updates = tuple(sorted(rng.sample(range(n), min(n, rng.choice([1, 1, 2, 3])))))
+    if rng.random() < 0.3 and n and s.s_scid_len:
+        s.new_cid_at = rng.randrange(n)
+    if rng.random() < 0.15 and n and s.c_scid_len:
+        s.client_new_cid_at = rng.randrange(n)
+    chlen = 260   # approximate; cuts beyond the end are ignored
+    if rng.random() < 0.5:
+        k = rng.randrange(1, 6)
+        s.ch_split = tuple(sorted(rng.sample(range(1, chlen), k)))
+        order_ = list(range(k + 1))
+        if rng.random() < 0.6 and "crypto-reorder" not in avoid:
+            rng.shuffle(order_)
+        s.ch_order = tuple(order_)
+        s.ch_packets = rng.choice([1, 1, 2, 3])
+    if rng.random() < 0.25 and s.offered[0] == suite:
+        nz = rng.randrange(1, 4)
+        off = 0
+        for _ in range(nz):
+            data = rng.randbytes(rng.randrange(1, 500))
+            s.zero_rtt.append([("stream", 0, data, {"off": off or None})])
+            off += len(data)
+        s.zero_rtt_coalesce = rng.random() < 0.4
+    s.coalesce_1rtt_with_hs = rng.random() < 0.3
+    s.server_half_rtt = rng.random() < 0.3
+    s.hs_split = rng.choice([1, 2, 2, 3])
+    s.len_vl = rng.choice([2, 2, 4, 8])
+    s.nst = rng.choice([0, 0, 1, 2])
+    s.token = rng.randbytes(rng.choice([0, 0, 16]))
+    return s
+
+
+def describe(spec: QSpec):
+    d = {k: v for k, v in vars(spec).items() if k not in ("app", "zero_rtt")}
+    d["suite"] = f"{spec.suite:04X}"
+    d["offered"] = [f"{x:04X}" for x in spec.offered]
+    d["pn_start"] = {f"{k[0]}/{k[1]}": v for k, v in spec.pn_start.items()}
+    d["app"] = [(dd, [[f[0] if f[0] != "raw" else f[2]["kind"] for f in p] for p in pk]) for dd, pk in spec.app][:12]
+    d["zero_rtt_packets"] = len(spec.zero_rtt)
+    return d
